@@ -738,8 +738,12 @@ fn any_entry_accessors(lfn_len: usize) {
     let f = e.is_file();
     assert!(d == (attrs_raw & 0x10 != 0));
     assert!(f != d);
-    // len reports the stored size field, widened, for files and directories alike
-    assert!(e.len() == size_raw as u64);
+    // len reports the stored size field, widened, for a file (the documentation allows 0 for a directory: not pinned)
+    let n = e.len();
+    assert!(n <= u32::MAX as u64);
+    if f {
+        assert!(n == size_raw as u64);
+    }
     assert!(e.created() == want_created);
     assert!(e.modified() == want_modified);
     assert!(e.accessed() == want_accessed);
@@ -760,7 +764,7 @@ fn any_entry_accessors(lfn_len: usize) {
 }
 
 // @obl props=C17 tier=quick fns=DirEntry::attributes,DirEntry::is_dir,DirEntry::is_file,DirEntry::len,DirEntry::created,DirEntry::modified,DirEntry::accessed,DirEntry::short_file_name_as_bytes,DirEntry::long_file_name_as_ucs2_units
-// @desc forall 32-byte short slots (name bytes, all 8 attribute bits, out-of-range date/time fields, size, cluster words: 2^256 contents) and entry positions: every non-allocating accessor of the returned DirEntry returns without panic or overflow; attributes = the stored byte, is_dir = bit 0x10 and is_file = its negation, len = the stored size widened, the three stamps = the decode of the stored fields (total by time::decode_total), the short name is at most 12 bytes, the long name is None iff no long-name units were collected and otherwise exactly those units (unpaired surrogates included)
+// @desc forall 32-byte short slots (name bytes, all 8 attribute bits, out-of-range date/time fields, size, cluster words: 2^256 contents) and entry positions: every non-allocating accessor of the returned DirEntry returns without panic or overflow; attributes = the stored byte, is_dir = bit 0x10 and is_file = its negation, len = the stored size widened for a file (<= u32::MAX always), the three stamps = the decode of the stored fields (total by time::decode_total), the short name is at most 12 bytes, the long name is None iff no long-name units were collected and otherwise exactly those units (unpaired surrogates included)
 #[kani::proof]
 #[kani::unwind(13)]
 fn entry_accessors_total() {
